@@ -53,8 +53,15 @@ def check(run):
     # its preamble must be the one the library returns for the rewritten file
     sch = G.run_driver(["sch " + l.split()[2] for l in lines]) if run.driver_ok else [None] * len(lines)
     blk = G.run_driver(["blk " + l.split()[2] for l in lines]) if run.driver_ok else [None] * len(lines)
-    for (orig, data, new), a, lg, sm, bm in zip(metas, answers, lean, sch, blk):
+    # the MODEL of the read side of a block (Model.ReadBlock: tables, index resolution, time arithmetic – C08.records_invariant)
+    rdq = G.run_driver(["rdq " + l.split()[2] for l in lines]) if run.driver_ok else [None] * len(lines)
+    for (orig, data, new), a, lg, sm, bm, rq in zip(metas, answers, lean, sch, blk, rdq):
         run.case(new.hex()[:120], new != data)
+        if rq is not None and a and a.startswith("I "):
+            run.count("read-model: records of a rewritten file resolved by Model.ReadBlock")
+            if not E.same_records(rq, a) and len(run.model_fail) < 5:
+                run.model_fail.append(("rdq " + new.hex()[:4000], {"note": "Model.ReadBlock (CdnsBlockRead::read after the raw read + read_generic_*) differs from the library on a rewritten file",
+                                       "model": (E.blocks_part(rq) or "")[:1000], "library": (E.blocks_part(a) or "")[:1000]}))
         if bm is not None and a and a.startswith("I F{") and a.endswith(" EOF"):
             run.count("schema-reader: whole rewritten file compared")
             if bm[2:].split(" #")[0] != a[2:] and len(run.model_fail) < 5:
